@@ -87,6 +87,28 @@ def device_execs(rnd, quick):
     return out
 
 
+ACCEPT_PATH = ["new", "shorter", "longer", "same"]     # accept(filePath): destination absent / holds an older file
+
+
+def accept_execs(chk, rnd, quick, socks):
+    """The receiving application accepts with accept(filePath) instead of accept(QIODevice*): the destination does not
+    exist, or already holds an older file that is shorter, longer (7000 bytes more) or of the same size.  Fault-free;
+    the oracle reads the file back from disk: success => the destination holds exactly the sent bytes."""
+    out = []
+    sizes = ([0, 1, 3000] if socks else [0, 1, 3000, REAL_BS + 1]) if quick else \
+        ([0, 1, 3000, 40000] if socks else [0, 1, 3000, REAL_BS, REAL_BS + 1, 3 * REAL_BS + 7])
+    for how in ACCEPT_PATH:
+        for ann in (("both",) if quick else ("both", "none")):
+            for size in sizes:
+                dest = chk.path(f"dest-{'s5' if socks else 'ibb'}-{len(out)}.bin")
+                if socks:
+                    out.append({"size": size, "ann": ann, "accept": how, "dest": dest, "cseed": rnd.getrandbits(40), "kind": "accept"})
+                else:
+                    out.append({"n": (size + REAL_BS - 1) // REAL_BS, "steps": [{"a": "Offer"}], "sender": "real", "bs": REAL_BS,
+                                "size": size, "ann": ann, "accept": how, "dest": dest, "cseed": rnd.getrandbits(40), "kind": "accept"})
+    return out
+
+
 def sweep(rnd, quick):
     """Fault-free transfers, sizes around block boundaries x block sizes (drained by the harness)."""
     out = []
@@ -206,6 +228,9 @@ def run_s5(chk, quick, rnd, replay_execs=None):
                     n = min(size, 3)
                     execs.append(dict(clean[n], method="socks5", unit=(size + n - 1) // n, size=size, ann=ann, dev=dev,
                                       cseed=rnd.getrandbits(40), kind="device"))
+        for a in accept_execs(chk, rnd, quick, True):
+            n = min(a["size"], 3)
+            execs.append(dict(clean[n], method="socks5", unit=(a["size"] + n - 1) // n if n else 1000, **a))
         chk.cov["generation"]["socks5_size_sweep"] = {"sizes": sweep_sizes, "announcements": 4}
     if not execs:
         return [], {}, {"cases": 0, "lines": 0, "viol": [], "ndiv": 0, "divs": [], "faulted": 0, "clean": 0, "wall_s": 0}
@@ -272,7 +297,7 @@ def short_s5(b):
     f = [s for s in b["steps"] if s["a"] == "Fault"]
     if b.get("foreign"):
         return f"socks5/ann={b.get('ann', 'both')}/size={b.get('size')}/n={b['n']}:foreign stream host offer ({b['foreign']}), clean"
-    return f"socks5/ann={b.get('ann', 'both')}" + (f"/dev={b['dev']}" if b.get("dev", "all") != "all" else "") + f"/unit={b.get('unit')}/size={b.get('size')}/n={b['n']}:" + (f"{f[0]['k']}(unit {f[0]['u']})" if f else "clean")
+    return f"socks5/ann={b.get('ann', 'both')}" + (f"/accept(path:{b['accept']})" if b.get("accept", "device") != "device" else "") + (f"/dev={b['dev']}" if b.get("dev", "all") != "all" else "") + f"/unit={b.get('unit')}/size={b.get('size')}/n={b['n']}:" + (f"{f[0]['k']}(unit {f[0]['u']})" if f else "clean")
 
 
 def klass(b, lines, prop=""):
@@ -282,7 +307,7 @@ def klass(b, lines, prop=""):
     c = "+".join(ks) if ks else "clean"
     if inj and (not ks or prop == "ForeignInert"):
         c += "+inject(" + ",".join(inj) + ")"
-    return c + (":dev=" + b["dev"] if b.get("dev", "all") != "all" else "") + (":blocks>65536" if b["n"] > 65536 else "") + (":ann=" + b["ann"] if b.get("ann", "both") != "both" else "")
+    return c + (":dev=" + b["dev"] if b.get("dev", "all") != "all" else "") + (":accept=path-" + b["accept"] if b.get("accept", "device") != "device" else "") + (":blocks>65536" if b["n"] > 65536 else "") + (":ann=" + b["ann"] if b.get("ann", "both") != "both" else "")
 
 
 def short(b):
@@ -292,7 +317,7 @@ def short(b):
         parts.append({"RDeliver": "R", "SDeliver": "S", "Offer": "O"}.get(a, a) +
                      ("(" + str(s.get("k", s.get("w"))) + ("/" + s["t"] if "t" in s else "") + ")"
                       if a in ("Fault", "Inject", "Burst") else ""))
-    return f"{b.get('sender', 'real')}/ann={b.get('ann', 'both')}" + (f"/dev={b['dev']}@{b.get('devAt')}" if b.get("dev", "all") != "all" else "") + f"/bs={b.get('bs')}/size={b.get('size')}/n={b['n']}:" + ",".join(parts)
+    return f"{b.get('sender', 'real')}/ann={b.get('ann', 'both')}" + (f"/accept(path:{b['accept']})" if b.get("accept", "device") != "device" else "") + (f"/dev={b['dev']}@{b.get('devAt')}" if b.get("dev", "all") != "all" else "") + f"/bs={b.get('bs')}/size={b.get('size')}/n={b['n']}:" + ",".join(parts)
 
 
 def validate_in_chunks(chk, trace, max_lines=60000):
@@ -373,7 +398,9 @@ def run(chk, replay=None):
         chk.cov["generation"]["other_announcements"] = {"fault_free_sweep": nsw, "one_fault": len(an) - nsw}
         dv = device_execs(rnd, quick)
         chk.cov["generation"]["output_device"] = {"executions": len(dv)}
-        sw = sw + an + dv
+        ac = accept_execs(chk, rnd, quick, False)
+        chk.cov["generation"]["accept_by_path"] = {"executions": len(ac)}
+        sw = sw + an + dv + ac
         lg = long_cases(rnd, quick)
         chk.cov["generation"].update({"size_sweep": len(sw), "long_transfers": len(lg)})
         execs = execs + sw + lg
@@ -495,7 +522,7 @@ def run(chk, replay=None):
         end = s5_cases[case][-1].get("o", {})
         for v in sorted(by_case5[case], key=lambda v: v["prop"]):
             sig = "C19:" + v["prop"] + ":socks5:" + (s5_cases[case][0].get("k") if end.get("applied") else "clean") + \
-                (":foreign-offer" if b.get("foreign") else "") + (":dev=" + b["dev"] if b.get("dev", "all") != "all" else "") + (":empty-file" if b["size"] == 0 else "") + (":ann=" + b["ann"] if b.get("ann", "both") != "both" else "")
+                (":foreign-offer" if b.get("foreign") else "") + (":accept=path-" + b["accept"] if b.get("accept", "device") != "device" else "") + (":dev=" + b["dev"] if b.get("dev", "all") != "all" else "") + (":empty-file" if b["size"] == 0 else "") + (":ann=" + b["ann"] if b.get("ann", "both") != "both" else "")
             if sig in reported5 or len(reported5) >= 4:
                 continue
             reported5.add(sig)
@@ -507,6 +534,9 @@ def run(chk, replay=None):
         b, sg = crashed
         raise vf.MachineryError("qxv ibb ended abnormally (" + sg + ") while replaying " + (short(b) if b else "?") + ": " +
                                 "; ".join(r["sanitizer"][:3]) + " " + r["stderr"][-600:])
+    for f in os.listdir(chk.outdir):
+        if f.startswith("dest-") and f.endswith(".bin"):
+            os.remove(os.path.join(chk.outdir, f))
     chk.assumptions += [
         "the fault-free clause (both sides NoError, byte-for-byte copy) is checked for offers announcing size+hash, size only, "
         "hash only and nothing (a size of 0 = not announced); fault detection is claimed for what the announcement can notice: "
